@@ -127,22 +127,36 @@ __CPROVER_assigns(G_cas_calls, G_cas_level, G_cas_now)
 __CPROVER_ensures(G_cas_calls == __CPROVER_old(G_cas_calls) + 1 && G_cas_level == level && G_cas_now == now)
 ;
 
-void h_advance_step(void)
+static void advance_step_impl(_Bool with_catchup_clause)
 {
   TimingWheel W; iora_firelist fl; int64_t now = nondet_i64(); WheelLevel L0;
+  size_t t = nondet_size_t(), K = nondet_size_t();            /* this is tick step t of the K = ticksToProcess steps of one advance() call */
   IORA_TRUE = 1; G_col_calls = 0; G_cas_calls = 0;
+  __CPROVER_assume(t < K && K <= ((size_t)1 << 24) && W._tickDuration > 0 && W._tickDuration <= ((int64_t)1 << 24) && now >= 0 && now <= ((int64_t)1 << 61));
   __CPROVER_assume(IS_POW2(W._ticksPerWheel) && W._ticksPerWheel <= ((size_t)1 << 30) && W._tickMask == W._ticksPerWheel - 1 && W._numWheels >= 1);
   L0.buckets = (Bucket *)malloc(W._ticksPerWheel * sizeof(Bucket));
   __CPROVER_assume(L0.buckets != NULL);
   W._wheels = &L0; G_cur0_ptr = &L0.currentTick;
   size_t cur0 = L0.currentTick;
-  TimingWheel_advanceStep(&W, now, &fl);
+  TimingWheel_advanceStep(&W, now, &fl, t, K);
   IORA_CANARY("h_advance_step: returns");
   /* R1 */ __CPROVER_assert(G_col_calls == 1 && G_col_bucket == &L0.buckets[cur0 & W._tickMask] && G_cur_at_collect == cur0, "R1 a tick step releases exactly the level-0 bucket (currentTick & mask), before currentTick moves");
   /* R2 */ __CPROVER_assert(L0.currentTick == cur0 + 1, "R2 a tick step advances currentTick by one");
-  /* R3 */ __CPROVER_assert(G_cas_calls == ((((cur0 + 1) & W._tickMask) == 0) ? 1 : 0) && (G_cas_calls == 0 || (G_cas_level == 1 && G_cas_now == now)), "R3 level 1 is cascaded exactly when level 0 wraps, with the same now");
-  if (G_cas_calls) { IORA_CANARY("h_advance_step: cascades"); }
+  /* R3 */ __CPROVER_assert(G_cas_calls == ((((cur0 + 1) & W._tickMask) == 0) ? 1 : 0) && (G_cas_calls == 0 || G_cas_level == 1), "R3 level 1 is cascaded exactly when level 0 wraps");
+  if (G_cas_calls) {
+    IORA_CANARY("h_advance_step: cascades");
+    /* R4 not early during catch-up: all remaining r = K-1-t tick steps of this call happen at the same real time `now`, so they sweep r more level-0 buckets
+     *    immediately. cascadeDown re-inserts with delay = deadline - (its time argument) (C6), floor(delay/tick) buckets ahead (W1). "At most one tick early"
+     *    therefore needs  time argument <= now - (r - 1) * tick  (derivation as Q3 in unit wheel_schedule); for r = 0 that is now + tick.                    */
+    if (!with_catchup_clause) return;        /* R4/R5 contain a 64-bit product: proved in proof advance_catchup (same state, same call; reachability is witnessed by the canaries of advance_step) */
+    const int64_t back = W._tickDuration * (int64_t)(K - 1 - t);
+    __CPROVER_assert(G_cas_now <= now - back + W._tickDuration, "R4 not early during catch-up: the time handed to cascadeDown is that of the tick step being processed (<= now - (remaining steps - 1) * tick)");
+    __CPROVER_assert(G_cas_now >= now - back - W._tickDuration, "R5 not dropped: the time handed to cascadeDown is not earlier than the tick step being processed (minus one tick)");
+  }
 }
+
+void h_advance_step(void) { advance_step_impl(0); }
+void h_advance_catchup(void) { advance_step_impl(1); }
 
 /* ================================================================================================================== */
 /* 3c. TimingWheel::cancel (sequential contract, full-domain symbolic wheel geometry) and stop()
